@@ -3,7 +3,9 @@ package c03
 
 import (
 	"bytes"
+	"context"
 	"fmt"
+	"io"
 	mrand "math/rand/v2"
 	"slices"
 	"strings"
@@ -15,6 +17,7 @@ import (
 	"verif/harness/internal/echrun"
 	"verif/harness/internal/hpkex"
 	"verif/harness/internal/mon"
+	"verif/harness/internal/tap"
 	"verif/harness/internal/tlspeer"
 	"verif/harness/internal/tlswire"
 )
@@ -286,10 +289,87 @@ func TestCheck(t *testing.T) {
 		}
 	})
 
+	// -- reconstructed inner hellos at and beyond the record limit (the outer hello is then fragmented by the client) --
+	sizes := []int{16383, 16384, 16385, 20000, 32767, 32768, 32769, 40000}
+	nBd := r.N(len(sizes)*3, len(sizes)*60)
+	r.Parallel("boundary", nBd, func(i int, rng *mrand.Rand) {
+		target := sizes[i%len(sizes)]
+		k := keys[i%len(keys)]
+		aead := aeads[i%3]
+		o := echgen.DefaultOpts()
+		o.MaxExtra = 2
+		inner := echgen.GenInner(rng, o)
+		outer := echgen.GenOuterBase(rng, k.PublicName, nil, 32)
+		inner.SessionID = append([]byte{}, outer.SessionID...)
+		inner.Exts = append(inner.Exts, tlswire.Ext{Type: 0x5a5c})
+		grow := target - len(inner.Message())
+		if grow < 0 {
+			return
+		}
+		inner.Exts[len(inner.Exts)-1].Data = hellogenBytes(rng, grow)
+		if len(inner.Message()) != target {
+			r.Inconclusive("boundary generator missed its size: %d != %d", len(inner.Message()), target)
+			return
+		}
+		s, err := hpkex.Setup(aead, k.Priv.PublicKey().Bytes(), echgen.Info(k.Config), nil)
+		if err != nil {
+			r.Inconclusive("hpke setup: %v", err)
+			return
+		}
+		echgen.SealInto(outer, -1, s, aead, k.ID, s.Enc, echgen.EncodeInner(inner, 0, 0, 0))
+		msg := outer.Message()
+		var wire []byte
+		for m := msg; len(m) > 0; {
+			n := min(len(m), 16384)
+			wire = append(wire, tlswire.Record(22, 0x0301, m[:n])...)
+			m = m[n:]
+		}
+		c := map[string]any{"inner_message_len": target, "outer_message_len": len(msg), "aead": aead, "client_records": (len(msg) + 16383) / 16384}
+		r.Guard("boundary", i, "reconstruct", c, func() {
+			tc := tap.FromBytes(wire)
+			conn, err := ech.NewConn(context.Background(), tc, ech.WithKeys([]ech.Key{k.TLSKey()}))
+			if err != nil || !conn.ECHAccepted() {
+				r.Violate("boundary", i, "reconstruct:not-accepted:fragmented-outer", fmt.Sprintf("valid offer with a %d-byte inner hello not accepted: %v", target, err), c)
+				return
+			}
+			all, rerr := io.ReadAll(conn)
+			if rerr != nil {
+				r.Violate("boundary", i, "reconstruct:read-error", rerr.Error(), c)
+				return
+			}
+			recs, rest := tlswire.SplitRecords(all)
+			var got []byte
+			for ri, rec := range recs {
+				if rec.Type != 22 || len(rec.Payload) == 0 || len(rec.Payload) > 16384 {
+					c["record_index"], c["record_header"] = ri, mon.Hex(rec.Raw[:5])
+					r.Violate("boundary", i, "reconstruct:illegal-record-framing", fmt.Sprintf("record %d of the forwarded hello has type %d and %d payload bytes (handshake fragments must be 1..16384 bytes)", ri, rec.Type, len(rec.Payload)), c)
+					return
+				}
+				got = append(got, rec.Payload...)
+			}
+			if len(rest) != 0 || !bytes.Equal(got, inner.Message()) {
+				r.Violate("boundary", i, "reconstruct:bytes-differ:large-inner", fmt.Sprintf("forwarded %d message bytes in %d records (+%d stray bytes), want %d", len(got), len(recs), len(rest), target), c)
+				return
+			}
+			r.Count("accepted", 1)
+			r.Count("accepted_inner_at_or_over_record_limit", 1)
+			r.Eval(fmt.Sprintf("boundary|%d|%d", target, aead))
+		})
+	})
+	r.Floor("accepted_inner_at_or_over_record_limit", int64(nBd*3/4))
+
 	r.Floor("accepted", int64(n)*9/10)
 	r.Floor("accepted_compressed", int64(n)/3)
 	r.Floor("runs_enumerated", 150)
 	r.Floor("accepted_near_limit", 10)
 	r.Floor("accepted_at_limit", 1)
 	r.SetExhaustive(true)
+}
+
+func hellogenBytes(rng *mrand.Rand, n int) []byte {
+	b := make([]byte, n)
+	for i := range b {
+		b[i] = byte(rng.IntN(256))
+	}
+	return b
 }
